@@ -184,10 +184,10 @@ pub fn check_body(table: &Table, mapfile: &str, body: &str, vals: &[Valuation]) 
         for (vi, val) in vals.iter().enumerate() {
             let diffs: &[u32] = if body.contains("{\"") { &[0, 1] } else { &[0] };
             for &d in diffs {
-                let ta = run_astvm(truth, &a.0, val, d);
-                let mut tb = run_astvm(truth, &b.0, val, d);
+                let (mut ta, mut tb) = run_astvm_pair(truth, &a.0, &b.0, val, d);
                 if tb.stopped.as_deref().map(|s| s.contains("tried to jump") || s.contains("label did not exist")).unwrap_or(false) {
-                    tb = run_astvm(truth, &b_des.0, val, d);
+                    let (x, y) = run_astvm_pair(truth, &a.0, &b_des.0, val, d);
+                    ta = x; tb = y;
                 }
                 runs.push((vi, d, ta, tb));
             }
@@ -209,7 +209,12 @@ pub fn check_body(table: &Table, mapfile: &str, body: &str, vals: &[Valuation]) 
             break;
         }
         if a.stopped.is_some() || b.stopped.is_some() { out.discards.push("iteration-cap(prefix compared)".into()); }
-        if let Some(diff) = compare_traces(&a, &b, &cmp_regs, true) {
+        // A jump with an explicit time (`goto L @ t`, t != time of L) leaves AstVm's clock different from the label clock; AstVm
+        // then resets it on entering a block but not when falling through a flat jump, so the two *spellings* of one stream
+        // disagree on time inside AstVm only.  For such bodies calls and registers are compared, times are not (the structural
+        // clause above already requires the timed jumps to be left untouched).
+        let timed = body.contains('@');
+        if let Some(diff) = compare_traces_term_ex(&a, &b, &cmp_regs, !timed, !timed) {
             out.failures.push(Failure { signature: format!("C07:behaviour:{body}"), detail: detail(json!({"valuation": vi, "difficulty": d, "diff": diff, "flat": flat_text, "structured": st_text})) });
             break;
         }
